@@ -16,7 +16,7 @@ import (
 
 func VerifHarness_C17_BasketBalances() {
 	zzinv.Install()
-	k, _ := symKeeper()
+	k, _ := zzvSymKeeper()
 	req := &types.QueryBasketBalancesRequest{}
 	zz.NondetInto("req", req)
 	req.Pagination = nil
@@ -57,7 +57,7 @@ func VerifHarness_C17_BasketBalances() {
 
 func VerifHarness_C17_Baskets() {
 	zzinv.Install()
-	k, _ := symKeeper()
+	k, _ := zzvSymKeeper()
 	req := &types.QueryBasketsRequest{}
 	zz.NondetInto("req", req)
 	req.Pagination = nil
